@@ -299,6 +299,7 @@ class Waiting(State):
     DONE_CALLBACK = 'DONE_CALLBACK'
 
     _interruption = None
+    _resumed_with: Optional[Tuple[Any]] = None
 
     def __str__(self) -> str:
         state_info = super().__str__()
@@ -354,6 +355,9 @@ class Waiting(State):
             # state is back to how it was before the interruption so that we can be
             # re-executed
             self._waiting_future = futures.Future()
+            if self._resumed_with is not None:
+                # Resumed while the interruption was on its way
+                self._waiting_future.set_result(self._resumed_with[0])
             raise
 
         if result == NULL:
@@ -367,6 +371,13 @@ class Waiting(State):
         assert self._waiting_future is not None, 'Not yet waiting'
 
         if self._waiting_future.done():
+            if (
+                self._resumed_with is None
+                and not self._waiting_future.cancelled()
+                and isinstance(self._waiting_future.exception(), Interruption)
+            ):
+                # The wait is being interrupted (e.g. to pause): keep the value for when the state is executed again
+                self._resumed_with = (value,)
             return
 
         self._waiting_future.set_result(value)
